@@ -357,6 +357,32 @@ def check_frag(a):
     return None
 
 
+def covered_frag(a, msg):
+    """the two default-namespace findings at object level: the `xsi:type` markers differ from the
+    prescribed ones only by the user's default namespace (a bare class name read in it:
+    c03-qname-default-ns; a name of that namespace written bare after the default was reset:
+    c03-qname-default-reset) — everything else about the document was right"""
+    from props import c03_oracle as O
+
+    if not msg.startswith("xsi:type markers"):
+        return None
+    d = O.user_map(a["ns_map"]).get(None)
+    if not d:
+        return None
+    out = C.impl_compose(a)
+    if "ok" not in out:
+        return None
+    want, got = expected_xsi_types(a["ctx"], a["value"]), document_xsi_types(out["ok"])
+
+    def strip(t):
+        return t[len(d) + 2:] if t.startswith("{%s}" % d) else t
+
+    if sorted(map(strip, want)) != sorted(map(strip, got)):
+        return None
+    bare_read_in_default = any(not w.startswith("{") for w in want) and sum(1 for g in got if g.startswith("{%s}" % d)) > sum(1 for w in want if w.startswith("{%s}" % d))
+    return "c03-qname-default-ns" if bare_read_in_default else "c03-qname-default-reset"
+
+
 from framework import Oracle  # noqa: E402
 
-ORACLE = Oracle("c03.frag", gen_frag, check_frag, from_ops=("ser.frag",))
+ORACLE = Oracle("c03.frag", gen_frag, check_frag, covered=covered_frag, from_ops=("ser.frag",))
